@@ -58,6 +58,24 @@ def run_check(prop, tier, n=None, budget=None, opts=None):
     budget = float(os.environ.get("VERIF_BUDGET", budget or b_def))
     opts = opts or {}
     seeds = [core.run_seed(base, i) for i in range(n)]
+    pre = {}
+    if tier == "thorough" and os.environ.get("VERIF_SKIP_SELFTESTS") != "1":
+        # determinism and (C03) the control model are proved before any property result is believed
+        from . import selftest
+
+        os.environ["VERIF_DET_PROPS"] = prop
+        os.environ.setdefault("VERIF_DET_SEEDS", "32")
+        rc = selftest.determinism([])
+        pre["determinism_selftest"] = "ok" if rc == 0 else "FAILED"
+        if rc != 0:
+            print("HARNESS-ERROR determinism self-test failed; no property result is reported")
+            return 2
+        if prop == "C03":
+            rc = selftest.control([])
+            pre["control_model_selftest"] = "ok" if rc == 0 else "FAILED"
+            if rc != 0:
+                print("HARNESS-ERROR control-model self-test failed; no property result is reported")
+                return 2
     print("%s %s: VERIF_SEED=%d runs=%d budget=%ds workers=%s repo=%s" % (
         prop, tier, base, n, budget, os.environ.get("VERIF_WORKERS", os.cpu_count()), core.REPO), flush=True)
     results = core.run_pool(_task, [(prop, s, tier, opts) for s in seeds], task_timeout=m.TASK_TIMEOUT, wall_budget=budget,
@@ -131,6 +149,7 @@ def run_check(prop, tier, n=None, budget=None, opts=None):
         "workers": int(os.environ.get("VERIF_WORKERS", os.cpu_count() or 1)),
         "simulated_time": "none: nothing in scope reads a clock; logical_steps is the measure",
     })
+    cov.update(pre)
     core.write_evidence(prop, tier, base, cov, wall, len(by_class), m.ASSUMPTIONS)
     print("%s %s: runs=%d nontrivial_distinct=%d violations=%d known=%d harness=%d timeouts=%d skipped=%d wall=%.0fs" % (
         prop, tier, len(ok), cov.get("distinct_nontrivial", 0), len(by_class), len(known_lines), len(harness),
